@@ -83,6 +83,17 @@ Special == <<GNilIface, GChan, GFunc, GNilPtr(GT("int")), GStructOf(<<>>), Nest(
            GMapOf(GT("string"), U(some).t, <<GEnt(GStr(<<97>>), U(some)), GEnt(GStr(<<98>>), U(none))>>),
            GArrOf(U(some).t, <<U(some), U(none), U(some)>>),
            GSliceOf(GSliceT(GT("int")), <<GSliceOf(GT("int"), <<GNum("int", NInt(1))>>), GNilSlice(GT("int"))>>)>>)
+     \* containers of a concrete element type whose elements still convert to different types (interface parts inside)
+     \o (LET W(d) == GStructOf(<<FV(SA, <<118>>, d)>>)
+              i1 == GIface(GNum("int", NInt(1)))
+              is == GIface(GStr(<<111, 110, 101>>))
+              IS(els) == GSliceOf(GT("iface"), els) IN
+         <<GSliceOf(W(i1).t, <<W(i1), W(is)>>), GSliceOf(W(i1).t, <<W(i1), W(i1)>>), GSliceOf(W(i1).t, <<W(is), W(i1), W(is)>>),
+           GArrOf(W(i1).t, <<W(i1), W(is)>>), GSliceOf(W(i1).t, <<W(i1), W(GNilIface)>>),
+           GSliceOf(GSliceT(GT("iface")), <<IS(<<i1>>), IS(<<is>>)>>), GSliceOf(GSliceT(GT("iface")), <<IS(<<i1>>), IS(<<i1, i1>>)>>),
+           GSliceOf(GSliceT(GT("iface")), <<IS(<<i1>>), IS(<<>>)>>),
+           GMapOf(GT("string"), W(i1).t, <<GEnt(GStr(<<97>>), W(i1)), GEnt(GStr(<<98>>), W(is))>>),
+           GStructOf(<<FV(SA, <<114>>, GSliceOf(W(i1).t, <<W(i1), W(is)>>))>>)>>)
      \o Map1(Tags, LAMBDA tg : GStructOf(<<FV(SA, tg, GNum("int", NInt(1)))>>))
      \o Map1(Tags, LAMBDA tg : GStructOf(<<FV(SA, tg, GNilPtr(GT("int")))>>))
 Singles == Scalars \o Concat(Map1(Scalars, L1)) \o Concat(Map1(Concat(Map1(Few, L1)), L2)) \o Special
